@@ -12,12 +12,15 @@ import Cellml.Tie.ModelState
 
     `get_value` is recursive: `genGetValue` is the generated `get_value` over the generated `_get_value` and
     `expand_derivatives`, closed with python's call stack as a depth counter (`Tie/RolesClosed.lean`).
-    The specification side (`Den`, `WF`, `derivLhs`, the equations) is unchanged. -/
+    The specification side (`Den`, `WF`, `derivLhs`, the equations) is unchanged. `fn : Interp` is the interpretation
+    of the uninterpreted function applications on right-hand sides (`Model/Roles.lean`): a parameter of the generated
+    `_get_value` (it reaches the leaf `float(...)` only) and of `Den`; every statement is for ALL interpretations, and
+    none restricts the right-hand sides (the former hypothesis `opqFree` is gone). -/
 
 namespace Cellml.Props.C10Gen
 open Model
 open Cellml.Tie (PyErr errClass)
-open Cellml.Tie.PRoles (derivNode gerrClass verrClass opqFree odeLhsOk nodeArg0 nodeOrderAdded optErr)
+open Cellml.Tie.PRoles (derivNode gerrClass verrClass odeLhsOk nodeArg0 nodeOrderAdded optErr)
 open Cellml.Tie.PRolesClosed
 open Cellml.Gen
 
@@ -159,7 +162,8 @@ theorem constant_iff_no_var (M : RModel) (W : WF M) (v : Nat) :
 -- ------------------------------------------------------------------------------------------------ get_value
 /-- the generated `get_value` over the closed generated `_get_value` / `expand_derivatives`, with the stack depth the
     hand model's `getValue` uses (`|variables| + 1`; `getValue_fuel` below: any larger depth gives the same) -/
-def genGetValue (M : RModel) (v : Nat) : Except PyErr Rat := genGetValueFuel M (M.st.live.length + 1) v
+def genGetValue (fn : Interp) (M : RModel) (v : Nat) : Except PyErr Rat :=
+  genGetValueFuel fn M (M.st.live.length + 1) v
 
 /-- on a well-formed model the expansions `_get_value` asks for stay within `F > |variables|` levels -/
 theorem expandsWithin_of_wf {M : RModel} (W : WF M) (F : Nat) (hF : M.st.live.length < F) : ExpandsWithin M F := by
@@ -167,7 +171,7 @@ theorem expandsWithin_of_wf {M : RModel} (W : WF M) (F : Nat) (hF : M.st.live.le
   obtain ⟨rank, hr⟩ := W.acyclic
   have R := ranked_of_wf W hr
   have hvr : varRhs M v = some (M.rhs eq.tok) := by simp [varRhs, hlk]
-  have hg := expand_good R F (M.rhs eq.tok) (fun s t hst =>
+  have hg := expand_good (fn := Interp.none) R F (M.rhs eq.tok) (fun s t hst =>
     ⟨Nat.lt_of_le_of_lt (measure_le (M := M) rank ((freeVar M).getD 0) _) hF, (R.varDec v _ hvr _ hst).2⟩)
   intro hc
   rw [hc] at hg
@@ -177,44 +181,44 @@ theorem stateKeys_nodup {s : MState} (h : Inv s) : (stateKeys s).Nodup := by
   unfold stateKeys; rw [h.eq.odeDef]
   exact (keys_deriveOdeDef_sublist s.equations).nodup h.eq.nodup
 
-/-- the closed generated `get_value` IS the hand model's `getValueFuel` on well-formed models whose right-hand sides
-    are arithmetic trees -/
-theorem genGetValueFuel_wf (M : RModel) (W : WF M) (hopq : ∀ tok, opqFree (M.rhs tok) = true) (F : Nat)
-    (hF : M.st.live.length < F) (v : Nat) : genGetValueFuel M F v = errClass verrClass (getValueFuel M F v) :=
-  genGetValueFuel_eq M F v (Cellml.Tie.PRoles.odeLhsOk_of_inv M W.inv.eq) W.inits (stateKeys_nodup W.inv) hopq
+/-- the closed generated `get_value` IS the hand model's `getValueFuel` on well-formed models, for every
+    interpretation of the opaque terms -/
+theorem genGetValueFuel_wf (fn : Interp) (M : RModel) (W : WF M) (F : Nat)
+    (hF : M.st.live.length < F) (v : Nat) : genGetValueFuel fn M F v = errClass verrClass (getValueFuel fn M F v) :=
+  genGetValueFuel_eq fn M F v (Cellml.Tie.PRoles.odeLhsOk_of_inv M W.inv.eq) W.inits (stateKeys_nodup W.inv)
     (expandsWithin_of_wf W F hF)
 
 /-- `C10.getValue_fuel` for the generated code: python never reaches `RecursionError` on a well-formed model, and a
     deeper stack changes no value -/
-theorem getValue_fuel (M : RModel) (W : WF M) (hopq : ∀ tok, opqFree (M.rhs tok) = true) (v : Nat) :
-    genGetValue M v ≠ .error ⟨"RecursionError"⟩ ∧
-    ∀ F, M.st.live.length < F → ∀ q, genGetValueFuel M F v = .ok q ↔ genGetValue M v = .ok q := by
-  obtain ⟨h1, h2⟩ := C10.getValue_fuel M W v
+theorem getValue_fuel (fn : Interp) (M : RModel) (W : WF M) (v : Nat) :
+    genGetValue fn M v ≠ .error ⟨"RecursionError"⟩ ∧
+    ∀ F, M.st.live.length < F → ∀ q, genGetValueFuel fn M F v = .ok q ↔ genGetValue fn M v = .ok q := by
+  obtain ⟨h1, h2⟩ := C10.getValue_fuel fn M W v
   unfold genGetValue
   refine ⟨?_, fun F hF q => ?_⟩
-  · rw [genGetValueFuel_wf M W hopq _ (Nat.lt_succ_self _) v]
+  · rw [genGetValueFuel_wf fn M W _ (Nat.lt_succ_self _) v]
     intro hc
-    have hg : getValueFuel M (M.st.live.length + 1) v = getValue M v := rfl
+    have hg : getValueFuel fn M (M.st.live.length + 1) v = getValue fn M v := rfl
     rw [hg] at hc
-    cases hv : getValue M v with
+    cases hv : getValue fn M v with
     | ok q => rw [hv] at hc; simp [errClass] at hc
     | error e =>
       rw [hv] at hc
       simp only [errClass, Except.error.injEq, PyErr.mk.injEq] at hc
       cases e <;> simp [verrClass] at hc
       exact h1 hv
-  · rw [genGetValueFuel_wf M W hopq F hF v, genGetValueFuel_wf M W hopq _ (Nat.lt_succ_self _) v, errClass_ok_iff,
+  · rw [genGetValueFuel_wf fn M W F hF v, genGetValueFuel_wf fn M W _ (Nat.lt_succ_self _) v, errClass_ok_iff,
       errClass_ok_iff]
     exact h2 F hF q
 
-/-- **`C10.getValue_denotes` for the generated code**: for every variable of every well-formed model whose right-hand
-    sides are arithmetic trees, the generated `get_value` (over the generated `_get_value` and `expand_derivatives`)
+/-- **`C10.getValue_denotes` for the generated code**: for every interpretation of the opaque terms and every variable
+    of every well-formed model, the generated `get_value` (over the generated `_get_value` and `expand_derivatives`)
     returns `q` iff the definitions denote `q` -/
-theorem getValue_denotes (M : RModel) (W : WF M) (hopq : ∀ tok, opqFree (M.rhs tok) = true) (v : Nat) (q : Rat) :
-    genGetValue M v = .ok q ↔ Den M (.v v) q := by
+theorem getValue_denotes (fn : Interp) (M : RModel) (W : WF M) (v : Nat) (q : Rat) :
+    genGetValue fn M v = .ok q ↔ Den fn M (.v v) q := by
   unfold genGetValue
-  rw [genGetValueFuel_wf M W hopq _ (Nat.lt_succ_self _) v, errClass_ok_iff]
-  exact C10.getValue_denotes M W v q
+  rw [genGetValueFuel_wf fn M W _ (Nat.lt_succ_self _) v, errClass_ok_iff]
+  exact C10.getValue_denotes fn M W v q
 
 -- ------------------------------------------------------------------------------------------------ history independence
 /-- the answers of the generated role queries -/
@@ -236,7 +240,7 @@ def ofRoles (r : Model.Roles) : GenRoles :=
    (errClass gerrClass r.derivedQuantities).map (List.map Node.var), fun v => .ok (r.isState v),
    fun v => .ok (r.isConstant v)⟩
 
-theorem genRoles_eq (M : RModel) (h : Inv M.st) : genRoles M = ofRoles (roles M) := by
+theorem genRoles_eq (fn : Interp) (M : RModel) (h : Inv M.st) : genRoles M = ofRoles (roles fn M) := by
   unfold genRoles ofRoles roles
   congr 1
   · rw [Cellml.Tie.PRoles.getStateVariables_tie]; rfl
@@ -252,38 +256,38 @@ theorem roles_history_independent (mc₁ mc₂ : Option String) (ops₁ ops₂ :
     (hd₁ : C08Gen.HistDom mc₁ ops₁) (hd₂ : C08Gen.HistDom mc₂ ops₂) (rhs : Nat → Expr)
     (h : content (C08Gen.genRun mc₁ ops₁) = content (C08Gen.genRun mc₂ ops₂)) :
     genRoles ⟨C08Gen.genRun mc₁ ops₁, rhs⟩ = genRoles ⟨C08Gen.genRun mc₂ ops₂, rhs⟩ := by
-  rw [genRoles_eq _ (C08Gen.inv_reachable mc₁ ops₁ hd₁), genRoles_eq _ (C08Gen.inv_reachable mc₂ ops₂ hd₂)]
-  rw [roles_of_content (C08Gen.inv_reachable mc₁ ops₁ hd₁) (C08Gen.inv_reachable mc₂ ops₂ hd₂) h rhs]
+  rw [genRoles_eq Interp.none _ (C08Gen.inv_reachable mc₁ ops₁ hd₁),
+    genRoles_eq Interp.none _ (C08Gen.inv_reachable mc₂ ops₂ hd₂)]
+  rw [roles_of_content Interp.none (C08Gen.inv_reachable mc₁ ops₁ hd₁) (C08Gen.inv_reachable mc₂ ops₂ hd₂) h rhs]
 
 /-- … and the same generated `get_value` for every variable, where the tie of `get_value` holds for both models (every
-    state has an initial value, right-hand sides are arithmetic trees, the expansions stay within the stack) — these
-    three are NOT implied by the hypotheses of `C10.roles_history_independent` (which holds for every content) -/
-theorem value_history_independent (mc₁ mc₂ : Option String) (ops₁ ops₂ : List C08Gen.GOp)
+    state has an initial value, the expansions stay within the stack) — these two are NOT implied by the hypotheses of
+    `C10.roles_history_independent` (which holds for every content). For every interpretation of the opaque terms. -/
+theorem value_history_independent (fn : Interp) (mc₁ mc₂ : Option String) (ops₁ ops₂ : List C08Gen.GOp)
     (hd₁ : C08Gen.HistDom mc₁ ops₁) (hd₂ : C08Gen.HistDom mc₂ ops₂) (rhs : Nat → Expr)
     (h : content (C08Gen.genRun mc₁ ops₁) = content (C08Gen.genRun mc₂ ops₂))
     (hinit₁ : ∀ s ∈ stateKeys (C08Gen.genRun mc₁ ops₁), (initOf (C08Gen.genRun mc₁ ops₁) s).isSome = true)
     (hinit₂ : ∀ s ∈ stateKeys (C08Gen.genRun mc₂ ops₂), (initOf (C08Gen.genRun mc₂ ops₂) s).isSome = true)
-    (hopq : ∀ tok, opqFree (rhs tok) = true)
     (hx₁ : ExpandsWithin ⟨C08Gen.genRun mc₁ ops₁, rhs⟩ ((C08Gen.genRun mc₁ ops₁).live.length + 1))
     (hx₂ : ExpandsWithin ⟨C08Gen.genRun mc₂ ops₂, rhs⟩ ((C08Gen.genRun mc₂ ops₂).live.length + 1)) (v : Nat) :
-    genGetValue ⟨C08Gen.genRun mc₁ ops₁, rhs⟩ v = genGetValue ⟨C08Gen.genRun mc₂ ops₂, rhs⟩ v := by
+    genGetValue fn ⟨C08Gen.genRun mc₁ ops₁, rhs⟩ v = genGetValue fn ⟨C08Gen.genRun mc₂ ops₂, rhs⟩ v := by
   have i₁ := C08Gen.inv_reachable mc₁ ops₁ hd₁
   have i₂ := C08Gen.inv_reachable mc₂ ops₂ hd₂
   unfold genGetValue
-  rw [genGetValueFuel_eq _ _ v (Cellml.Tie.PRoles.odeLhsOk_of_inv _ i₁.eq) hinit₁ (stateKeys_nodup i₁) hopq hx₁,
-    genGetValueFuel_eq _ _ v (Cellml.Tie.PRoles.odeLhsOk_of_inv _ i₂.eq) hinit₂ (stateKeys_nodup i₂) hopq hx₂]
-  have := congrArg Roles.value (roles_of_content i₁ i₂ h rhs)
+  rw [genGetValueFuel_eq fn _ _ v (Cellml.Tie.PRoles.odeLhsOk_of_inv _ i₁.eq) hinit₁ (stateKeys_nodup i₁) hx₁,
+    genGetValueFuel_eq fn _ _ v (Cellml.Tie.PRoles.odeLhsOk_of_inv _ i₂.eq) hinit₂ (stateKeys_nodup i₂) hx₂]
+  have := congrArg Roles.value (roles_of_content fn i₁ i₂ h rhs)
   exact congrArg (errClass verrClass) (congrFun this v)
 
 -- ------------------------------------------------------------------------------------------------ non-vacuity
-/-- the demo model of `Props/C10.lean` meets the extra hypothesis, so `getValue_denotes` applies to it -/
-theorem demo_opqFree : ∀ tok, opqFree (C10.demoRhs tok) = true := by
-  intro tok
-  unfold C10.demoRhs
-  split <;> rfl
+/-- `getValue_denotes` applies to the demo model of `Props/C10.lean`, whatever the interpretation -/
+example (fn : Interp) : genGetValue fn C10.demoM 4 = .ok (17/2) :=
+  (getValue_denotes fn C10.demoM C10.demo_wf 4 _).mpr
+    ((C10.getValue_denotes fn C10.demoM C10.demo_wf 4 _).mp (of_decide_eq_true (by with_unfolding_all rfl)))
 
-example : genGetValue C10.demoM 4 = .ok (17/2) :=
-  (getValue_denotes C10.demoM C10.demo_wf demo_opqFree 4 _).mpr
-    ((C10.getValue_denotes C10.demoM C10.demo_wf 4 _).mp (by decide +kernel))
+/-- … and to the model with an opaque right-hand side (`b = exp(a) * 2`, `C10.opqM`): for EVERY interpretation under
+    which `exp(a)` has a value `r` at `a = 3`, the GENERATED `get_value(b)` returns `r * 2` -/
+example (fn : Interp) (r : Rat) (h : fn "exp(v0)" [3] = some r) : genGetValue fn C10.opqM 1 = .ok (r * 2) :=
+  (getValue_denotes fn C10.opqM C10.opq_wf 1 _).mpr (C10.opaque_value fn r h).1
 
 end Cellml.Props.C10Gen
